@@ -86,7 +86,10 @@ NewContent(U, c, k) ==
     [] k.op = "AndAny" -> c[k.x] \cap UnionOf(c, Xs(k))
     [] k.op = "AddOffset" -> Shifted(U, c[k.x], k.j)
 
-Effect(U, c, k) == IF Target(k) = 0 THEN c ELSE [c EXCEPT ![Target(k)] = NewContent(U, c, k)]
+Effect(U, c, k) ==
+  IF k.op = "ConcLoad"      \* concurrent decodes of slots xs[1..n] into slots 4..3+n
+  THEN [s \in Slots |-> IF s \in 4..(3 + Len(Xs(k))) THEN c[Xs(k)[s - 3]] ELSE c[s]]
+  ELSE IF Target(k) = 0 THEN c ELSE [c EXCEPT ![Target(k)] = NewContent(U, c, k)]
 
 ---------------------------------------------------------------------------
 (* Results.  HasResult(k) tells whether the call returns something the specification constrains;   *)
@@ -139,6 +142,7 @@ SerialClauses(k, r) ==
     [] k.op = "MustRead" -> (IF r.panicked /\ (~r.readOK \/ r.validNil) THEN {"panic-without-validation-failure"} ELSE {})
                             \cup (IF ~r.panicked /\ r.readOK /\ ~r.validNil THEN {"invalid-bitmap-not-reported"} ELSE {})
                             \cup (IF ~r.panicked /\ ~(r.sameN /\ r.sameErr) THEN {"count-or-error-differs-from-ReadFrom"} ELSE {})
+    [] k.op = "ConcLoad" -> IF \E i \in DOMAIN r.errs : r.errs[i] THEN {"concurrent-decode-failed"} ELSE {}
     [] k.op = "Ser64" -> {cl \in {"write-error", "size-mismatch", "returned-count", "writers-differ", "library-bitmap-invalid"} :
                             CASE cl = "write-error" -> r.err
                               [] cl = "size-mismatch" -> ~r.err /\ ~NEq(r.len, r.gsz)
@@ -153,7 +157,7 @@ HasResult(k) ==
   k.op \in {"CheckedAdd", "CheckedRemove", "AndCard", "OrCard", "Intersects", "Equals", "Contains", "IsEmpty",
             "Card", "Min", "Max", "Rank", "Select", "CardInRange", "IntersectsInterval", "NextValue",
             "PreviousValue", "NextAbsentValue", "PreviousAbsentValue", "ToArray", "ChecksumEq", "ChecksumRT",
-            "Ser", "Load", "WriteFail", "Freeze", "FrozenRT", "LoadLegal", "Ser64", "Load64", "Decode", "MustRead"}
+            "Ser", "Load", "WriteFail", "Freeze", "FrozenRT", "LoadLegal", "Ser64", "Load64", "Decode", "MustRead", "ConcLoad"}
 
 ResultOK(U, c, k, r) ==
   CASE k.op = "CheckedAdd" -> r = (k.a \notin c[k.x])
